@@ -175,6 +175,22 @@ CHECKS = {
    technique=TECH + "clang JSON AST of the generated reparameterised kernel -> guarded-command VCs (loop invariants, decode lemmas) -> z3; "
              "witnesses replayed on the compiled reparameterised and base models",
    design="DESIGN.md 6 C16"),
+ "C18": dict(engine="pyvc",
+   text="Rely/guarantee contracts on ghost state: kerneldll.make_dll is executed symbolically (all sources, ids, cache directories, "
+        "precisions; z3 strings) on a ghost file system in which every os/tempfile/compiler call is an event and a possible crash or "
+        "interleaving point.  Proved per path: G1 the compiler never writes to the final cache name, G2 the final name is published by "
+        "exactly one os.replace of the file the compiler finished in a directory created by mkdtemp inside the cache directory, G3 "
+        "nothing else writes/truncates/removes/renames the final name, G4 a hit changes nothing and a failed compile raises and "
+        "publishes nothing, R the returned path is the final name; separately, the invariant 'final name absent or complete library "
+        "of the named source' is inductive under G (z3) and implies what a concurrent reader (exists-then-dlopen) and a restart after a "
+        "kill rely on; load_dll/DllModel._load_dll open exactly the returned path.",
+   note="not a schedule exploration: the step from 'every process satisfies G' to 'I holds in every interleaving / after every kill' is "
+        "the standard rely/guarantee argument (stated, not mechanised beyond the inductiveness lemma); os.replace atomicity, compiler "
+        "writes only its output, mkdtemp/mkstemp freshness are assumptions; bounded stand-ins with real processes (scripted compiler "
+        "stopped half way then killed; 4-8 concurrent first loads on an empty cache) are listed and not counted",
+   technique=TECH + "Python AST symbolic execution over z3 strings with a ghost file system (event trace) -> per-path guarantee "
+             "obligations -> z3; rely/guarantee invariant lemma; replay with a scripted compiler and real processes",
+   design="DESIGN.md 6 C18"),
  "C20": dict(engine="pyvc",
    text="convert_model and its 12 helpers are executed symbolically once per table entry and naming scheme with a finite-map "
         "input whose keys carry symbolic presence bits and symbolic values (state merging), so one run covers every subset "
